@@ -72,6 +72,10 @@ _ORDERS = [("rho", "<b_coh>^2", "<b_tot^2>"), ("rho", "<b_tot^2>", "<b_coh>^2"),
 def kwargs_of(m, **extra):
     """the material constants as keywords, in the order this caller happens to write them"""
     vals = {"rho": m["rho"], "<b_coh>^2": m["bcoh"], "<b_tot^2>": m["btot"]}
+    if m.get("const_int"):      # whole-number scattering lengths written without a decimal point (Python int) or read from an integer column (np.int64)
+        for name in ("<b_coh>^2", "<b_tot^2>"):
+            if float(vals[name]).is_integer():
+                vals[name] = int(vals[name]) if m["const_int"] == "py" else np.int64(vals[name])
     k = {name: vals[name] for name in _ORDERS[m.get("kworder", 0) % 6]}
     k.update(extra)
     return k
@@ -150,6 +154,10 @@ def gen_conv_cases(rng, tier, space, channel, signed_bcoh=False, force_pos=False
                 if (a * 3 + b) % 2 == 0:
                     dk, dy = "none", None
             m = material(rng, signed_bcoh)
+            if rep % 6 == 4:      # whole-number constants handed over as integers
+                m["bcoh"] = float(2 + (a * 5 + b) % 6) * (-1.0 if m["bcoh"] < 0 else 1.0)
+                m["btot"] = float([0, 3, 5, 9][(a + b) % 4])
+                m["const_int"] = "py" if (a + b) % 2 else "np"
             # integer-typed arrays with the same values must behave like floating ones
             idt = [False, False, False]
             if forced_ints:
@@ -170,7 +178,7 @@ def gen_conv_cases(rng, tier, space, channel, signed_bcoh=False, force_pos=False
                 "minimal_kw": bool(rep % 2),
                 "desc": {"method": "%s_to_%s" % (names[a], names[b]), "n": n, "grid": gk, "values": vk,
                          "dy": dk, "has_zero": any(v == 0 for v in x), "has_neg": any(v < 0 for v in x), "int_arrays": "".join("1" if t else "0" for t in idt),
-                         "bcoh_neg": m["bcoh"] < 0, "uncertainty_by_keyword": bool(dy is not None and rep % 3 == 1)},
+                         "bcoh_neg": m["bcoh"] < 0, "integer_constants": m.get("const_int", "no"), "uncertainty_by_keyword": bool(dy is not None and rep % 3 == 1)},
             })
     return cases
 
@@ -224,6 +232,9 @@ def run_conv(pystog, case):
         return call_conv(pystog, case["space"], case["X"], case["Y"], case["x"], case["y"], case["dy"], case["mat"], idt, cv=cv,
                          callform=case.get("callform", "pos"), minimal=case.get("minimal_kw", False))
     reuse.prime(call)
+    x_ = np.linspace(0.5, 3.0, 6)
+    reuse.provoke(cv, [(n_, a_, k_) for n_ in ("F_to_S", "S_to_FK", "FK_to_DCS", "G_to_g", "g_to_GK", "GK_to_G")
+                       for a_, k_ in (((x_, np.ones(5)), kwargs_of(case["mat"])), ((x_, np.ones(6)), {}), ((x_, "n/a"), kwargs_of(case["mat"])))])
     v, e = call(False, None)
     res = {"val": None if v is None else [float(t) for t in np.asarray(v, dtype=float)],
            "err": None if e is None else [float(t) for t in np.asarray(e, dtype=float)]}
